@@ -26,6 +26,13 @@ VarR == <<N * s2 - s1 * s1, N * (N - 1)>>
 \* the streaming recurrence equals the closed form, and the division above is exact
 WelfordExact == wN = N /\ wM = N * s2 - s1 * s1
 VarNonNeg == N >= 2 => VarR[1] >= 0
+\* adding a constant to every sample shifts the mean by it and leaves the variance alone (what makes the statistic usable for samples
+\* with a large common offset; replayed into the code with an offset of 1e8, where a sum-of-squares formula loses every digit)
+Shifted(c) == [i \in 1..N |-> xs[i] + c]
+SumOf(f) == LET RECURSIVE S(_) S(i) == IF i = 0 THEN 0 ELSE f[i] + S(i - 1) IN S(N)
+ShiftInvariant == \A c \in {7, 1000} : LET ys == Shifted(c)  t1 == SumOf(ys)  t2 == SumOf([i \in 1..N |-> ys[i] * ys[i]]) IN
+                     /\ t1 = s1 + N * c
+                     /\ N * t2 - t1 * t1 = N * s2 - s1 * s1
 Emit == (EmitAll /\ N >= 1) => PrintT(ToJson([xs |-> xs, mean |-> [num |-> s1, den |-> N],
                                                var |-> [num |-> N * s2 - s1 * s1, den |-> IF N >= 2 THEN N * (N - 1) ELSE 1]]))
 =============================================================================
